@@ -62,6 +62,13 @@ PATTERNS['changing_group'] = [
          extra=['phi', 'chi']),
     dict(its0=rng0(8, 12, 2), its1=rng0(8, 12, 1), chk=[],
          extra=['chi'])]
+PATTERNS['bracket_names'] = [
+    dict(its0=rng0(0, 4, 2), its1=rng0(0, 4, 1), chk=[4],
+         extra=['Bvec[0]', 'Bvec[1]', 'Bvec[2]']),
+    dict(its0=rng0(4, 8, 2), its1=rng0(4, 8, 1), chk=[8],
+         extra=['Bvec[1]']),
+    dict(its0=rng0(8, 12, 2), its1=rng0(8, 12, 1), chk=[],
+         extra=['Bvec[0]', 'Bvec[2]', 'phi'])]
 _PRISTINE = {}
 _CFG = None
 
@@ -595,6 +602,8 @@ def plans(tier):
         cfgs.append((('sim-v1.2', 'two', lay, 1), 'full', 3))
     for lay in [(True, True), (True, False), (False, False)]:
         cfgs.append((('sim', 'changing_group', lay, 1), 'full', 3))
+    for lay in [(False, True), (True, True)]:
+        cfgs.append((('sim', 'bracket_names', lay, 1), 'full', 3))
     if tier == 'thorough':
         for nm in NAMES:
             cfgs.append(((nm, 'empty_mid', (True, True), 2), 'full', 3))
